@@ -2961,8 +2961,17 @@ coap_handle_request_put_block(coap_context_t *context,
     coap_ticks(&lg_srcv->last_used);
     lg_srcv->resource = resource;
     if (resource == context->unknown_resource ||
-        resource == context->proxy_uri_resource)
+        resource == context->proxy_uri_resource) {
       lg_srcv->uri_path = coap_new_str_const(uri_path->s, uri_path->length);
+      if (lg_srcv->uri_path == NULL) {
+        /* Not yet in session->lg_srcv */
+        coap_free_type(COAP_LG_SRCV, lg_srcv);
+        coap_add_data(response, sizeof("Memory issue")-1,
+                      (const uint8_t *)"Memory issue");
+        response->code = COAP_RESPONSE_CODE(500);
+        goto skip_app_handler;
+      }
+    }
     lg_srcv->content_format = fmt;
     lg_srcv->total_len = total;
     max_block_szx = COAP_BLOCK_MAX_SIZE_GET(session->block_mode);
